@@ -217,7 +217,7 @@ func main() {
 			// a trusted function may still carry ghost assertions (before/after a call, loop exit): its body is then
 			// executed for those alone, every other obligation being assumed
 			for _, c := range blk.Clauses {
-				if c.Kind == "before" || c.Kind == "after" || c.Kind == "loop-exit" || (c.Kind == "ensures" && c.Checked) {
+				if c.Kind == "before" || c.Kind == "after" || c.Kind == "loop-exit" || c.Kind == "loop-step" || (c.Kind == "ensures" && c.Checked) {
 					ghostOnly = true
 				}
 			}
